@@ -291,6 +291,10 @@ inductive Ev where
   | remove (n : Text)     -- `Logging::removeAttribute`
   | drop (i : Nat)        -- the live `ScopedAttribute` number `i` (0 = newest) is destroyed: objects on the
                           -- heap / in other threads need not die in reverse order of construction
+  | removeId (k : Nat)    -- `Logging::removeAttributeEntry( k)` (public since the repair 46917af) called with the
+                          -- id `k` by anyone: the application with an id `addAttribute` returned, or the
+                          -- destructor of a COPY of a `ScopedAttribute` (the copy holds the id of the original,
+                          -- which stays alive: `live` is unchanged)
   deriving DecidableEq, Repr
 
 /-- the global container (`ents`, `next` = `mNextId`) and the ids held by the live `ScopedAttribute`
@@ -317,6 +321,7 @@ def Scopes.step (s : Scopes) : Ev → Option Scopes
     match s.live[i]? with
     | none => none
     | some k => some { s with ents := removeId s.ents k, live := s.live.eraseIdx i }
+  | .removeId k => some { s with ents := removeId s.ents k }
 
 def Scopes.run (s : Scopes) : List Ev → Option Scopes
   | [] => some s
